@@ -1871,6 +1871,14 @@ class RunMonitor:
         if r["problem_type"] != want_pt:
             self.v("C19/result-problem-type-wrong", reported=r["problem_type"], want=want_pt)
         want_tt = "deterministic" if det else ("stochastic (specified noise)" if P.mode == "he" else "stochastic")
+        # "agrees with the PROBLEM": a deterministic callable for which the user declared nothing is a deterministic target,
+        # a declared / specified-noise one is stochastic - whatever the instance concluded internally
+        if P.mode == "det" and not P.options.get("uncertainty_handling") and not P.options.get("specify_target_noise"):
+            want_tt = "deterministic"
+        elif P.mode in ("declared", "declared+size"):
+            want_tt = "stochastic"
+        elif P.mode == "he":
+            want_tt = "stochastic (specified noise)"
         if r["target_type"] != want_tt:
             self.v("C19/result-target-type-wrong", reported=r["target_type"], want=want_tt)
         x0r = np.asarray(r["x0"], float).ravel()
